@@ -80,6 +80,16 @@ func newOIDCFixture() *oidcFixture {
 	f.otherKey = jose.JSONWebKey{Algorithm: string(jose.RS256), Key: k2, KeyID: "k1"}
 	set := jose.JSONWebKeySet{Keys: []jose.JSONWebKey{f.key.Public()}}
 	f.srv = httptest.NewServer(http.HandlerFunc(func(w http.ResponseWriter, r *http.Request) {
+		if strings.HasSuffix(r.URL.Path, "/.well-known/openid-configuration") {
+			// OIDC discovery document (used when the JWT rule has no jwks_uri)
+			w.Header().Set("Content-Type", "application/json")
+			_ = json.NewEncoder(w).Encode(map[string]any{
+				"issuer": f.srv.URL, "jwks_uri": f.srv.URL + "/jwks", "authorization_endpoint": f.srv.URL + "/auth",
+				"token_endpoint": f.srv.URL + "/token", "id_token_signing_alg_values_supported": []string{"RS256"},
+				"response_types_supported": []string{"id_token"}, "subject_types_supported": []string{"public"},
+			})
+			return
+		}
 		_ = json.NewEncoder(w).Encode(set)
 	}))
 	return f
@@ -91,6 +101,9 @@ func (f *oidcFixture) authenticator(td string, auds []string) (*authenticate.Jwt
 		return a, nil
 	}
 	rule := &v1beta1.JWTRule{Issuer: f.srv.URL, JwksUri: f.srv.URL, Audiences: auds}
+	if len(td)%2 == 0 {
+		rule.JwksUri = "" // the other branch of NewJwtAuthenticator: OIDC discovery at the issuer
+	}
 	a, err := authenticate.NewJwtAuthenticator(rule, meshwatcher.NewTestWatcher(&meshconfig.MeshConfig{TrustDomain: td}))
 	if err != nil {
 		return nil, err
